@@ -10,6 +10,7 @@ mod lms;
 mod out;
 mod rng;
 mod sig;
+mod total;
 
 use std::collections::HashMap;
 
@@ -68,6 +69,7 @@ fn main() {
         "xdh" => sig::run_xdh(&mut tr, &mut rng, num("n", 40)),
         "eddsa" => sig::run_eddsa(&mut tr, &mut rng, &get("curve", "ed25519"), num("honest", 12), num("adv", 24)),
         "ecdsa" => sig::run_ecdsa(&mut tr, &mut rng, &get("curve", "p256"), num("honest", 12), num("adv", 12)),
+        "total" => total::run(&mut tr, &mut rng, num("part", 0), num("parts", 1), num("step", 1)),
         "frost" => frost::run(&mut tr, &mut rng, &get("script", "")),
         "lms" => lms::run(&mut tr, &mut rng, &get("script", ""), num("deep", 0)),
         "hash" => hash::run(&mut tr, &mut rng, &get("script", "")),
